@@ -131,6 +131,11 @@ func runClntCase(cs clntCase, dotu bool) (line string, results []callRes) {
 		})
 		defer hookTable.Delete(p.clnt)
 	}
+	if cs.end == "writefail" {
+		p.conn.mu.Lock()
+		p.conn.failW = true
+		p.conn.mu.Unlock()
+	}
 	res := make([]callRes, cs.n)
 	var wg sync.WaitGroup
 	done := make([]chan struct{}, cs.n)
@@ -166,7 +171,7 @@ func runClntCase(cs clntCase, dotu bool) (line string, results []callRes) {
 	}
 	// wait until all requests were written (held callers have not written anything)
 	deadline := time.Now().Add(3 * time.Second)
-	for !cs.hold && !cs.holdfirst && !cs.sendhold && len(p.requests()) < cs.n && time.Now().Before(deadline) {
+	for !cs.hold && !cs.holdfirst && !cs.sendhold && cs.end != "writefail" && len(p.requests()) < cs.n && time.Now().Before(deadline) {
 		time.Sleep(20 * time.Microsecond)
 	}
 	if cs.hold || cs.sendhold {
@@ -327,7 +332,7 @@ func runClntCase(cs clntCase, dotu bool) (line string, results []callRes) {
 	for _, r := range res {
 		fmt.Fprintf(&sb, " %s:%d", r.class, b2i(r.own))
 	}
-	fmt.Fprintf(&sb, " ; LATE %s ; DISTINCT %d ; HANG %d ; TAGSBACK %d", late, b2i(distinct && (cs.hold || cs.holdfirst || cs.sendhold || len(tags) == cs.n)), b2i(hang), b2i(tagsOK || hang))
+	fmt.Fprintf(&sb, " ; LATE %s ; DISTINCT %d ; HANG %d ; TAGSBACK %d", late, b2i(distinct && (cs.hold || cs.holdfirst || cs.sendhold || cs.end == "writefail" || len(tags) == cs.n)), b2i(hang), b2i(tagsOK || hang))
 	fmt.Fprintf(&sb, " ; DISTURBED %d", b2i(disturbed))
 	return sb.String(), res
 }
@@ -402,6 +407,13 @@ func modeClnt(tier string, args []string) {
 				l, _ := runClntCase(cs, true)
 				emit("%s", l)
 				stat("clnt.cut_cases", 1)
+			}
+			if n > 0 {
+				// only the write direction of the transport fails: nothing was sent, nothing will arrive
+				cs := clntCase{n: n, kinds: kinds, order: ord, cut: 0, end: "writefail"}
+				l, _ := runClntCase(cs, r%2 == 0)
+				emit("%s", l)
+				stat("clnt.fail_cases", 1)
 			}
 			for _, end := range []string{"garbage", "oversize", "oversize1", "oversize2", "oversize8", "undersize", "unknowntag", "unmount"} {
 				cs := clntCase{n: n, kinds: kinds, order: ord, cut: -1, end: end}
